@@ -6,10 +6,21 @@ package seam
 import (
 	"context"
 	"fmt"
+	"io"
+	"os"
 
 	"github.com/containerd/nri/pkg/adaptation"
 	"github.com/containerd/nri/pkg/api"
+	"github.com/sirupsen/logrus"
 )
+
+func init() {
+	// nri logs every request through logrus; the harnesses issue millions of them
+	if os.Getenv("VERIF_LOG") == "" {
+		logrus.SetOutput(io.Discard)
+		logrus.SetLevel(logrus.ErrorLevel)
+	}
+}
 
 // Handler answers one call to a fake plugin. req is the live request object
 // handed over by the adaptation (clone it before keeping it).
